@@ -50,10 +50,14 @@ type Call struct {
 	Framing  string   `json:"framing"`             // length | chunked | close
 	Chunks   []int    `json:"chunks,omitempty"`    // chunk sizes (cycled) for chunked framing
 
-	Method    string `json:"method"`
-	OpClient  bool   `json:"op_client,omitempty"`  // the operation carries its own *http.Client
-	OpCtx     string `json:"op_ctx,omitempty"`     // "" | live | cancelled: the operation carries its own context
-	ReaderErr bool   `json:"reader_err,omitempty"` // the caller's reader returns an error
+	Method   string `json:"method"`
+	OpClient bool   `json:"op_client,omitempty"` // the operation carries its own *http.Client
+	// OpClientBare: that client has no Transport of its own (one that only carries a timeout or a redirect policy):
+	// net/http sends its requests through http.DefaultTransport, which the harness replaces by a tagged transport for
+	// the duration of the case
+	OpClientBare bool   `json:"op_client_bare,omitempty"`
+	OpCtx        string `json:"op_ctx,omitempty"`     // "" | live | cancelled: the operation carries its own context
+	ReaderErr    bool   `json:"reader_err,omitempty"` // the caller's reader returns an error
 }
 
 // Case is one Runtime and the calls made on it.
@@ -325,6 +329,12 @@ func Check(c Case) *kit.Violation {
 		e.recs[toks[i]] = &record{tok: toks[i], got: map[string]headerObs{}}
 	}
 
+	// a client without a Transport goes through http.DefaultTransport: tag it for this case
+	savedDefault := http.DefaultTransport
+	http.DefaultTransport = &transport{"default-transport", e}
+	defer func() { http.DefaultTransport = savedDefault }()
+	bareClients := map[int]*http.Client{}
+
 	var rt *client.Runtime
 	if c.RtClient == "client" {
 		rt = client.NewWithClient("example.test", "/", []string{"http"}, &http.Client{Transport: &transport{"runtime-client", e}})
@@ -341,6 +351,7 @@ func Check(c Case) *kit.Violation {
 	rt.Context = newCtx(c.RtCtx, "runtime-context")
 
 	racesBefore := raceErrors()
+	var bareMu sync.Mutex
 
 	submit := func(i int) {
 		call, tok, rec := &c.Calls[i], toks[i], e.recs[toks[i]]
@@ -371,6 +382,12 @@ func Check(c Case) *kit.Violation {
 		}
 		if call.OpClient {
 			op.Client = &http.Client{Transport: &transport{"operation-client", e}}
+			if call.OpClientBare {
+				op.Client = &http.Client{Timeout: 30 * time.Second}
+				bareMu.Lock()
+				bareClients[i] = op.Client
+				bareMu.Unlock()
+			}
 		}
 		op.Context = newCtx(call.OpCtx, "operation-context")
 		e.hist.logf(i, "call %d: Submit tok=%q", i, tok)
@@ -433,6 +450,11 @@ func Check(c Case) *kit.Violation {
 		if code != rec.code || msg != rec.msg || tokHdr != toks[i] {
 			return kit.Failf("KEPT-RESPONSE call %d of %d: the response object its reader kept now reports status %d %q and token header %q; when it was read it reported %d %q and belongs to token %q\nhistory:\n%s",
 				i, len(c.Calls), code, msg, tokHdr, rec.code, rec.msg, toks[i], e.hist)
+		}
+	}
+	for i, hc := range bareClients {
+		if hc.Transport != nil {
+			return kit.Failf("CLIENT-MODIFIED call %d of %d: the operation's own *http.Client had no Transport when it was handed over; after Submit its Transport is %T\nhistory:\n%s", i, len(c.Calls), hc.Transport, e.hist)
 		}
 	}
 	if n := raceErrors() - racesBefore; n > 0 {
@@ -553,6 +575,9 @@ func judge(c Case, i int, tok string, rec *record) string {
 	}
 	if call.OpClient {
 		wantVia = "operation-client"
+		if call.OpClientBare {
+			wantVia = "default-transport" // what net/http uses for a client without a Transport
+		}
 	}
 	effCtx, wantCtx := c.RtCtx, "runtime-context"
 	if call.OpCtx != "" {
